@@ -14,7 +14,7 @@ pub fn check_byte_exact(ctx: &Ctx, c: &SignCase) -> Verdict {
     let blob = hss::private_key_blob(&c.levels, c.counter, &seed);
     // every way in must release the same bytes: the callback API (with and without aux data), the
     // in-memory key through try_sign and through try_sign_with_aux (with and without aux data)
-    let entry = (c.counter as usize + msg.len() + c.levels.len() + c.hash.index()) % 6;
+    let entry = ((c.counter % 6) as usize + msg.len() % 6 + c.levels.len() + c.hash.index()) % 6;
     let o = match entry {
         0 | 1 => libapi::sign(c.hash, &msg, &blob, Cb::Accept, None).0,
         2 => libapi::sign(c.hash, &msg, &blob, Cb::Accept, Some(&mut libapi::AuxBuf::new(vec![0u8; 1500]))).0,
